@@ -37,6 +37,10 @@ type caseC06 struct {
 const openStreamTimeout = 5 * time.Second
 
 func checkC06(c caseC06) (sig, msg string) {
+	guard.SetCurrent(func() []byte {
+		return mustJSON(vf.Failure{Property: "C06", Kind: "hang", Case: mustJSON(c), Signature: "hang", Message: "a library call made for this case did not return"})
+	})
+	defer guard.SetCurrent(nil)
 	var stream []byte
 	for _, f := range c.Frames {
 		stream = append(stream, f...)
